@@ -11,7 +11,7 @@ CHECKS = {
         text="Generated-input search over every shipped family (7 native + 5 ScipyDistribution subclasses), parameters over several decades, "
              "quantile levels 1e-12..1-1e-12 and argument forms; oracle = documented formula coded independently, mutual consistency "
              "(monotone, limits, icdf/cdf round trips, integral of pdf = cdf difference) and explicit-parameter == constructed-instance for every "
-             "parameter subset and method. Exploration: absence of violations on ~2e4 (quick) / ~4.5e5 (thorough) cases, not a proof.",
+             "parameter subset and method (explicit values also integer-typed); pdf exactly on the support boundary is a non-negative number. Exploration: absence of violations on ~2e4 (quick) / ~4.5e5 (thorough) cases, not a proof.",
         note="Trusts scipy.special as reference arithmetic; ScipyDistribution subclasses are compared with the named scipy.stats law (their documented meaning); "
              "von Mises cdf tolerance 1e-5 for kappa>=50 (scipy's own normal approximation).",
         design="7/C05",
@@ -32,7 +32,7 @@ CHECKS["C08"] = dict(
     text="Generated (template family x dependent-parameter subset x constructed dependence shapes incl. chained and default-valued signatures x conditioning "
          "values x quantile levels x seeds). pdf/cdf/icdf of the ConditionalDistribution in the IFORM (vector,vector), ISORM (scalar,scalar) and HDC (vector,scalar / 0-d) "
          "call forms equal the template built with the reference parameter values; vectorised equals one-at-a-time; fixed parameters are constant in g; seeded samples "
-         "(scalar and vector given) equal the template's. Exploration level.",
+         "(scalar and vector given) equal the template's; integer-typed conditioning values (int, np.int64, int arrays) give the numbers of the float form for pdf/cdf/icdf and seeded samples; von Mises mean directions beyond one period; evaluate - change coefficients - evaluate histories. Exploration level.",
     note="Template methods with constructed parameters are the reference (C05 decides their formulas); tolerance 1e-9 vs reference, 1e-10 vector-vs-scalar.",
     design="7/C08",
 )
@@ -49,7 +49,7 @@ CHECKS["C06"] = dict(
     text="Generated 2-4-D hierarchical models over the non-negative families with every conditional_on structure; points in bulk and tails; row/list/array/integer input forms. "
          "model.pdf equals the reference factorisation (rtol 1e-9) and integrates to 1 (nested Gauss-Legendre, 1e-6); model.cdf, marginal_pdf and marginal_cdf equal ancestor-chain "
          "quadrature references that use the conditional cdf/pdf formulas rather than nquad of the joint pdf; marginal_icdf is exact for unconditional variables and within the "
-         "order-statistic Beta interval otherwise (called without random_state and with int seeds incl. 0 and 1). Exploration; the number of cdf/marginal points is bounded by the implementation's own cost (seconds to minutes per point).",
+         "order-statistic Beta interval otherwise (called without random_state and with int seeds incl. 0 and 1); a cheap 3-D cdf slice (chain / star models of smooth Weibull levels) runs in the quick tier. Exploration; the number of cdf/marginal points is bounded by the implementation's own cost (seconds to minutes per point).",
     note="Reference formulas decided by C05; bounded dependence shapes only (virocon integrates to infinity, parameters must stay admissible for every x>=0); 3-D cdf only in the thorough tier.",
     design="7/C06",
 )
@@ -66,9 +66,9 @@ CHECKS["C11"] = dict(
     technique="property-based testing (Hypothesis) over an enumerated configuration lattice (family x fixed-parameter subset x fit method) with generated values and data; invariant oracle on the fixed values",
     text="All 56 non-empty proper fixed-parameter subsets of the 12 families (plus lsq/wlsq for the exponentiated Weibull) with generated fixed values, start values and data from the "
          "same or another family: fixed value present in parameters and f_<name> from construction, evaluation identical to an instance constructed with the value, fit succeeds (only the "
-         "documented NotImplementedError for unsupported least-squares subsets), fixed value unchanged to 1e-12 after fit and re-fit, free parameters finite/admissible/estimated; "
-         "ConditionalDistribution: fixed parameter constant in g before and after fitting, per-interval estimates keep it, template untouched.",
-    note="Fixed location-like values are generated below the data; 'estimated' is only asserted when the start values give the data a finite likelihood.",
+         "documented NotImplementedError for unsupported least-squares subsets), fixed value unchanged to 1e-12 after fit and re-fit (also 0 / 1 boundary values, von Mises mean directions beyond pi, a fixed location inside the data), free parameters finite/admissible/estimated (an MLE fit does not end below the likelihood of its start; for LogNormal / Normal with one free parameter a 20 % move of it gains nothing); "
+         "ConditionalDistribution: fixed parameter constant in g (float, int, numpy-int scalars and arrays) before and after fitting, per-interval estimates keep it, template untouched.",
+    note="Fixed location-like values are generated below the data in three quarters of the cases; 'estimated' is only asserted when the start values give the data a finite likelihood.",
     design="7/C11",
 )
 CHECKS["C13"] = dict(
@@ -153,7 +153,7 @@ CHECKS["C17"] = dict(
 CHECKS["C18"] = dict(
     category="fault_enumeration",
     technique="exhaustive fault injection over a catalogue of malformations x positions x structures x carrier families (generated-case search with a 'must raise, no result' oracle and an accepted-control group)",
-    text="Every catalogue entry of the property (13 model/fit fault kinds with variants, HDC limits/deltas malformations, non-finite evaluation points, 1-D/3-D models for the 2-D-only contours, "
+    text="Every catalogue entry of the property (14 model/fit fault kinds with variants, incl. one-dimensional data for models of >= 2 variables, HDC limits/deltas malformations, non-finite evaluation points, 1-D/3-D models for the 2-D-only contours, "
          "non-models for IFORM, unknown slicer keywords / references, too few intervals) is injected at every dimension of valid 1-4-dimensional descriptions (9 structures, 7 carrier families), "
          "singly (exhaustive) and in pairs within a stage (thorough: exhaustive; quick: every 7th). The call where the malformed item is supplied (first use for lazily interpreted options) must raise "
          "and produce no object; the unmodified description must be accepted.",
@@ -174,7 +174,7 @@ CHECKS["C19"] = dict(
     text="Pool of live models (generated 2-D and 3-D models, a fitted model from one of the six predefined getters incl. the two TransformedModels) and histories of <= 6 (quick) / <= 10 (thorough) operations "
          "out of 17 evaluation / contour / plotting / saving entry points and 4 fitting operations. After every step: deep structural snapshots of all models not being fitted are unchanged, caller-owned "
          "arrays (handed over read-only) are bit-identical, every deterministic operation executed twice returns identical results, ConditionalDistribution.fit leaves its template untouched and uses distinct "
-         "per-interval copies, two calls of a predefined getter share no mutable object and fitting one leaves the other unchanged. Seeded TransformedModels are evaluated the way IFORMContour does (IFORM contour, marginal_icdf with model.random_state); snapshots include the state of numpy Generators stored in a model.",
+         "per-interval copies, two calls of a predefined getter share no mutable object and fitting one leaves the other unchanged. Seeded TransformedModels are evaluated the way IFORMContour does (IFORM contour, marginal_icdf with model.random_state); snapshots include the state of numpy Generators stored in a model; HDC limits / deltas are handed over as caller-owned lists / arrays and compared with a deep copy; a direct-sampling contour of a supplied sample is repeated under another global RNG state.",
     note="Bounded history length; Monte-Carlo operations without a seed argument are made deterministic by seeding numpy's global RNG before the call; repeatability judged at rtol 1e-10 (numpy SIMD last-bit nondeterminism).",
     design="7/C19",
 )
